@@ -772,6 +772,332 @@ theorem planeStep_refines (pl : Plane) (hinv : Inv pl) (hopen : pl.count.isSome)
     · intro k
       exact aget_strip_iter id hid k pl.maps hinv.wf
 
+/-! #### the whole RocksDB store: handles, two planes, reopen points -/
+
+structure SSt where
+  p0 : Spec
+  p1 : Spec
+  slots : List (Nat × (Nat × Bytes))
+
+def sget (s : SSt) (p : Nat) : Spec := if p = 0 then s.p0 else s.p1
+def sset (s : SSt) (p : Nat) (t : Spec) : SSt := if p = 0 then { s with p0 := t } else { s with p1 := t }
+
+/-- Specification of the store with handles: reopening changes nothing but the set of open handles. -/
+def sstep (s : SSt) : Op → SSt × SOut
+  | .opn slot p uri =>
+    if (aget s.slots slot).isSome then (s, .badOp) else ({ s with slots := aset s.slots slot (p, uri) }, .ready)
+  | .poll _ => (s, .badOp)
+  | .drp slot =>
+    match aget s.slots slot with
+    | .some _ => ({ s with slots := adel s.slots slot }, .ok)
+    | .none => (s, .badOp)
+  | .data slot d =>
+    match aget s.slots slot with
+    | .some (p, uri) => let r := specStep (sget s p) uri d; (sset s p r.1, r.2)
+    | .none => (s, .badOp)
+  | .reopen => ({ s with slots := [] }, .ok)
+
+def absSt (s : St) : SSt := { p0 := abs s.p0, p1 := abs s.p1, slots := s.slots }
+
+def Op.idOk : Op → Prop
+  | .data _ d => DOp.idOk d
+  | _ => True
+
+structure StInv (s : St) : Prop where
+  i0 : Inv s.p0
+  i1 : Inv s.p1
+  opened : ∀ slot p uri, aget s.slots slot = some (p, uri) → (getPlane s p).count.isSome
+
+theorem stInv_init : StInv init :=
+  ⟨inv_init, inv_init, by intro slot p uri h; simp [init, aget] at h⟩
+
+theorem inv_openPlane {pl : Plane} (h : Inv pl) : Inv (openPlane pl) := by
+  unfold openPlane
+  cases hc : pl.count with
+  | some c => simpa [hc] using h
+  | none => exact ⟨h.sorted, h.wf, by intro c hcc; simp at hcc; exact hcc.symm⟩
+
+theorem abs_openPlane (pl : Plane) : abs (openPlane pl) = abs pl := by
+  unfold openPlane
+  cases hc : pl.count <;> rfl
+
+theorem open_openPlane (pl : Plane) : (openPlane pl).count.isSome := by
+  unfold openPlane
+  cases hc : pl.count <;> simp [hc]
+
+theorem inv_close {pl : Plane} (h : Inv pl) : Inv { pl with count := none } :=
+  ⟨h.sorted, h.wf, by intro c hc; simp at hc⟩
+
+theorem step_refines (s : St) (hinv : StInv s) (op : Op) (hop : Op.idOk op) :
+    StInv (step s op).1 ∧ absSt (step s op).1 = (sstep (absSt s) op).1 ∧
+      outRel (step s op).2 (sstep (absSt s) op).2 := by
+  cases op with
+  | opn slot p uri =>
+    by_cases hs : (aget s.slots slot).isSome = true
+    · simp only [step, sstep, absSt, hs, ↓reduceIte]
+      exact ⟨hinv, by simp, by simp [outRel]⟩
+    · simp only [step, sstep, absSt, hs, Bool.false_eq_true, ↓reduceIte]
+      by_cases hp : p = 0
+      · subst hp
+        simp only [setPlane, getPlane, ↓reduceIte, abs_openPlane]
+        refine ⟨⟨inv_openPlane hinv.i0, hinv.i1, ?_⟩, by simp, by simp [outRel]⟩
+        intro sl q u hq
+        simp only [aget_aset] at hq
+        by_cases e : sl = slot
+        · simp [e] at hq
+          simp [getPlane, ← hq.1, open_openPlane]
+        · simp [e] at hq
+          have := hinv.opened sl q u hq
+          by_cases hq0 : q = 0
+          · simp [getPlane, hq0, open_openPlane]
+          · simpa [getPlane, hq0] using this
+      · simp only [setPlane, getPlane, hp, ↓reduceIte, abs_openPlane]
+        refine ⟨⟨hinv.i0, inv_openPlane hinv.i1, ?_⟩, by simp, by simp [outRel]⟩
+        intro sl q u hq
+        simp only [aget_aset] at hq
+        by_cases e : sl = slot
+        · simp [e] at hq
+          simp [getPlane, ← hq.1, hp, open_openPlane]
+        · simp [e] at hq
+          have := hinv.opened sl q u hq
+          by_cases hq0 : q = 0
+          · simpa [getPlane, hq0] using this
+          · simp [getPlane, hq0, open_openPlane]
+  | poll slot => exact ⟨hinv, rfl, trivial⟩
+  | drp slot =>
+    rcases h : aget s.slots slot with _ | x
+    · simp only [step, sstep, absSt, h]
+      exact ⟨hinv, by simp, by simp [outRel]⟩
+    · simp only [step, sstep, absSt, h]
+      refine ⟨⟨hinv.i0, hinv.i1, ?_⟩, by simp, by simp [outRel]⟩
+      intro sl q u hq
+      simp only [aget_adel] at hq
+      by_cases e : sl = slot
+      · simp [e] at hq
+      · simp [e] at hq
+        simpa [getPlane] using hinv.opened sl q u hq
+  | reopen =>
+    simp only [step, sstep, absSt]
+    refine ⟨⟨inv_close hinv.i0, inv_close hinv.i1, ?_⟩, rfl, trivial⟩
+    intro sl q u hq
+    simp [aget] at hq
+  | data slot d =>
+    rcases h : aget s.slots slot with _ | ⟨p, uri⟩
+    · simp only [step, sstep, absSt, h]
+      exact ⟨hinv, by simp, by simp [outRel]⟩
+    · have hopen := hinv.opened slot p uri h
+      have hd : DOp.idOk d := hop
+      simp only [step, sstep, absSt, h]
+      by_cases hp : p = 0
+      · subst hp
+        simp only [getPlane, ↓reduceIte] at hopen
+        obtain ⟨r1, r2, r3, r4⟩ := planeStep_refines s.p0 hinv.i0 hopen uri d hd
+        simp only [getPlane, setPlane, sget, sset, ↓reduceIte]
+        refine ⟨⟨r1, hinv.i1, ?_⟩, by rw [r3], r4⟩
+        intro sl q u hq
+        have := hinv.opened sl q u hq
+        by_cases hq0 : q = 0
+        · simpa [getPlane, hq0] using r2
+        · simpa [getPlane, hq0] using this
+      · simp only [getPlane, hp, ↓reduceIte] at hopen
+        obtain ⟨r1, r2, r3, r4⟩ := planeStep_refines s.p1 hinv.i1 hopen uri d hd
+        simp only [getPlane, setPlane, sget, sset, hp, ↓reduceIte]
+        refine ⟨⟨hinv.i0, r1, ?_⟩, by rw [r3], r4⟩
+        intro sl q u hq
+        have := hinv.opened sl q u hq
+        by_cases hq0 : q = 0
+        · simpa [getPlane, hq0] using this
+        · simpa [getPlane, hq0] using r2
+
+def runOut (s : St) : List Op → St × List Out
+  | [] => (s, [])
+  | o :: os => let r := step s o; let q := runOut r.1 os; (q.1, r.2 :: q.2)
+
+def srunOut (s : SSt) : List Op → SSt × List SOut
+  | [] => (s, [])
+  | o :: os => let r := sstep s o; let q := srunOut r.1 os; (q.1, r.2 :: q.2)
+
+theorem run_refines (ops : List Op) : ∀ (s : St), StInv s → (∀ o ∈ ops, Op.idOk o) →
+    StInv (runOut s ops).1 ∧ absSt (runOut s ops).1 = (srunOut (absSt s) ops).1 ∧
+      OutsRel (runOut s ops).2 (srunOut (absSt s) ops).2 := by
+  induction ops with
+  | nil => intro s h _; exact ⟨h, rfl, OutsRel.nil⟩
+  | cons o os ih =>
+    intro s h hok
+    obtain ⟨h1, h2, h3⟩ := step_refines s h o (hok o List.mem_cons_self)
+    obtain ⟨g1, g2, g3⟩ := ih (step s o).1 h1 (fun x hx => hok x (List.mem_cons_of_mem _ hx))
+    simp only [runOut, srunOut]
+    rw [h2] at g2 g3
+    exact ⟨g1, g2, OutsRel.cons h3 g3⟩
+
 end Rocks
+
+/-! ### what the specifications say: isolation, stable and collision-free ids -/
+
+def DOp.target : DOp → Option Nat
+  | .idFor _ => none
+  | .get id | .put id _ | .del id | .upd id _ _ | .rem id _ | .clr id | .read id => some id
+
+theorem InMem.spec_isolation (t : Spec) (d : DOp) (i : Nat) (h : DOp.target d ≠ some i) :
+    (InMem.specStep t d).1.vals i = t.vals i ∧ (InMem.specStep t d).1.maps i = t.maps i := by
+  cases d <;> simp only [DOp.target, ne_eq, Option.some.injEq, not_false_eq_true] at h <;>
+    simp only [InMem.specStep] <;> (try split) <;> (try split) <;> simp [fupd, Ne.symm h]
+
+theorem Rocks.spec_isolation (t : Spec) (uri : Bytes) (d : DOp) (i : Nat) (h : DOp.target d ≠ some i) :
+    (Rocks.specStep t uri d).1.vals i = t.vals i ∧ (Rocks.specStep t uri d).1.maps i = t.maps i := by
+  cases d <;> simp only [DOp.target, ne_eq, Option.some.injEq, not_false_eq_true] at h <;>
+    simp only [Rocks.specStep] <;> (try split) <;> simp [fupd, Ne.symm h]
+
+/-- Allocated ids lie in `[lo, next + lo)` and no id is given to two names. -/
+structure IdsInv (lo : Nat) (t : Spec) : Prop where
+  bound : ∀ nm n, t.ids nm = some n → n < t.next + lo
+  inj : ∀ a b n, t.ids a = some n → t.ids b = some n → a = b
+
+theorem InMem.ids_step (t : Spec) (h : IdsInv 0 t) (d : DOp) :
+    IdsInv 0 (InMem.specStep t d).1 ∧ ∀ nm n, t.ids nm = some n → (InMem.specStep t d).1.ids nm = some n := by
+  cases d with
+  | idFor name =>
+    rcases hn : t.ids name with _ | id
+    · simp only [InMem.specStep, hn]
+      refine ⟨⟨?_, ?_⟩, ?_⟩
+      · intro nm n hnm
+        show n < (t.next + 1) + 0
+        simp only [fupd] at hnm
+        by_cases e : nm = name
+        · simp [e] at hnm; omega
+        · simp [e] at hnm; have := h.bound nm n hnm; omega
+      · intro a b n ha hb
+        simp only [fupd] at ha hb
+        by_cases ea : a = name <;> by_cases eb : b = name
+        · rw [ea, eb]
+        · simp [ea] at ha; simp [eb] at hb; have := h.bound b n hb; omega
+        · simp [ea] at ha; simp [eb] at hb; have := h.bound a n ha; omega
+        · simp [ea] at ha; simp [eb] at hb; exact h.inj a b n ha hb
+      · intro nm n hnm
+        have : nm ≠ name := fun e => by rw [e, hn] at hnm; exact absurd hnm (by simp)
+        simp [fupd, this, hnm]
+    · simp only [InMem.specStep, hn]
+      exact ⟨h, fun _ _ hh => hh⟩
+  | get id => simp only [InMem.specStep]; split <;> (try split) <;> exact ⟨h, fun _ _ hh => hh⟩
+  | put id v => simp only [InMem.specStep]; split <;> exact ⟨⟨h.bound, h.inj⟩, fun _ _ hh => hh⟩
+  | del id => simp only [InMem.specStep]; split <;> exact ⟨⟨h.bound, h.inj⟩, fun _ _ hh => hh⟩
+  | upd id k v => simp only [InMem.specStep]; split <;> (try split) <;> exact ⟨⟨h.bound, h.inj⟩, fun _ _ hh => hh⟩
+  | rem id k => simp only [InMem.specStep]; split <;> (try split) <;> exact ⟨⟨h.bound, h.inj⟩, fun _ _ hh => hh⟩
+  | clr id => simp only [InMem.specStep]; split <;> exact ⟨⟨h.bound, h.inj⟩, fun _ _ hh => hh⟩
+  | read id => simp only [InMem.specStep]; split <;> (try split) <;> exact ⟨h, fun _ _ hh => hh⟩
+
+theorem Rocks.ids_step (t : Spec) (h : IdsInv 1 t) (uri : Bytes) (d : DOp) :
+    IdsInv 1 (Rocks.specStep t uri d).1 ∧ ∀ nm n, t.ids nm = some n → (Rocks.specStep t uri d).1.ids nm = some n := by
+  cases d with
+  | idFor name =>
+    rcases hn : t.ids (Rocks.laneKey uri name) with _ | id
+    · simp only [Rocks.specStep, hn]
+      refine ⟨⟨?_, ?_⟩, ?_⟩
+      · intro nm n hnm
+        show n < (t.next + 1) + 1
+        simp only [fupd] at hnm
+        by_cases e : nm = Rocks.laneKey uri name
+        · simp [e] at hnm; omega
+        · simp [e] at hnm; have := h.bound nm n hnm; omega
+      · intro a b n ha hb
+        simp only [fupd] at ha hb
+        by_cases ea : a = Rocks.laneKey uri name <;> by_cases eb : b = Rocks.laneKey uri name
+        · rw [ea, eb]
+        · simp [ea] at ha; simp [eb] at hb; have := h.bound b n hb; omega
+        · simp [ea] at ha; simp [eb] at hb; have := h.bound a n ha; omega
+        · simp [ea] at ha; simp [eb] at hb; exact h.inj a b n ha hb
+      · intro nm n hnm
+        have : nm ≠ Rocks.laneKey uri name := fun e => by rw [e, hn] at hnm; exact absurd hnm (by simp)
+        simp [fupd, this, hnm]
+    · simp only [Rocks.specStep, hn]
+      exact ⟨h, fun _ _ hh => hh⟩
+  | get id => simp only [Rocks.specStep]; split <;> exact ⟨h, fun _ _ hh => hh⟩
+  | put id v => exact ⟨⟨h.bound, h.inj⟩, fun _ _ hh => hh⟩
+  | del id => exact ⟨⟨h.bound, h.inj⟩, fun _ _ hh => hh⟩
+  | upd id k v => exact ⟨⟨h.bound, h.inj⟩, fun _ _ hh => hh⟩
+  | rem id k => exact ⟨⟨h.bound, h.inj⟩, fun _ _ hh => hh⟩
+  | clr id => exact ⟨⟨h.bound, h.inj⟩, fun _ _ hh => hh⟩
+  | read id => exact ⟨h, fun _ _ hh => hh⟩
+
+theorem idsInv_spec0 (lo : Nat) : IdsInv lo InMem.spec0 :=
+  ⟨by intro nm n h; simp [InMem.spec0] at h, by intro a b n h; simp [InMem.spec0] at h⟩
+
+theorem InMem.ids_run (ds : List DOp) : ∀ t, IdsInv 0 t →
+    IdsInv 0 (InMem.specRun t ds).1 ∧ ∀ nm n, t.ids nm = some n → (InMem.specRun t ds).1.ids nm = some n := by
+  induction ds with
+  | nil => intro t h; exact ⟨h, fun _ _ hh => hh⟩
+  | cons d ds ih =>
+    intro t h
+    obtain ⟨h1, h2⟩ := InMem.ids_step t h d
+    obtain ⟨g1, g2⟩ := ih _ h1
+    exact ⟨g1, fun nm n hh => g2 nm n (h2 nm n hh)⟩
+
+theorem Rocks.ids_sstep (s : Rocks.SSt) (h0 : IdsInv 1 s.p0) (h1 : IdsInv 1 s.p1) (op : Op) :
+    IdsInv 1 (Rocks.sstep s op).1.p0 ∧ IdsInv 1 (Rocks.sstep s op).1.p1 ∧
+      (∀ nm n, s.p0.ids nm = some n → (Rocks.sstep s op).1.p0.ids nm = some n) ∧
+      (∀ nm n, s.p1.ids nm = some n → (Rocks.sstep s op).1.p1.ids nm = some n) := by
+  cases op with
+  | opn slot p uri => simp only [Rocks.sstep]; split <;> exact ⟨h0, h1, fun _ _ hh => hh, fun _ _ hh => hh⟩
+  | poll slot => exact ⟨h0, h1, fun _ _ hh => hh, fun _ _ hh => hh⟩
+  | drp slot => simp only [Rocks.sstep]; split <;> exact ⟨h0, h1, fun _ _ hh => hh, fun _ _ hh => hh⟩
+  | reopen => exact ⟨h0, h1, fun _ _ hh => hh, fun _ _ hh => hh⟩
+  | data slot d =>
+    simp only [Rocks.sstep]
+    split
+    · rename_i p uri _
+      by_cases hp : p = 0
+      · subst hp
+        obtain ⟨a, b⟩ := Rocks.ids_step s.p0 h0 uri d
+        simp only [Rocks.sget, Rocks.sset, ↓reduceIte]
+        exact ⟨a, h1, b, fun _ _ hh => hh⟩
+      · obtain ⟨a, b⟩ := Rocks.ids_step s.p1 h1 uri d
+        simp only [Rocks.sget, Rocks.sset, hp, ↓reduceIte]
+        exact ⟨h0, a, fun _ _ hh => hh, b⟩
+    · exact ⟨h0, h1, fun _ _ hh => hh, fun _ _ hh => hh⟩
+
+theorem Rocks.ids_srun (ops : List Op) : ∀ (s : Rocks.SSt), IdsInv 1 s.p0 → IdsInv 1 s.p1 →
+    IdsInv 1 (Rocks.srunOut s ops).1.p0 ∧ IdsInv 1 (Rocks.srunOut s ops).1.p1 ∧
+      (∀ nm n, s.p0.ids nm = some n → (Rocks.srunOut s ops).1.p0.ids nm = some n) ∧
+      (∀ nm n, s.p1.ids nm = some n → (Rocks.srunOut s ops).1.p1.ids nm = some n) := by
+  induction ops with
+  | nil => intro s h0 h1; exact ⟨h0, h1, fun _ _ hh => hh, fun _ _ hh => hh⟩
+  | cons o os ih =>
+    intro s h0 h1
+    obtain ⟨a0, a1, b0, b1⟩ := Rocks.ids_sstep s h0 h1 o
+    obtain ⟨c0, c1, d0, d1⟩ := ih _ a0 a1
+    exact ⟨c0, c1, fun nm n hh => d0 nm n (b0 nm n hh), fun nm n hh => d1 nm n (b1 nm n hh)⟩
+
+/-- The stored name determines (uri, item name) when item names contain no `/` (the F10 class is exactly the rest). -/
+theorem split_unique (x : Nat) : ∀ (a a' b b' : Bytes), x ∉ a → x ∉ a' → a ++ x :: b = a' ++ x :: b' → a = a' ∧ b = b' := by
+  intro a
+  induction a with
+  | nil =>
+    intro a' b b' _ h' h
+    cases a' with
+    | nil => simp at h; exact ⟨rfl, h⟩
+    | cons y ys =>
+      simp only [List.nil_append, List.cons_append, List.cons.injEq] at h
+      exact absurd (by rw [h.1]; simp) h'
+  | cons y ys ih =>
+    intro a' b b' hx h' h
+    cases a' with
+    | nil =>
+      simp only [List.nil_append, List.cons_append, List.cons.injEq] at h
+      exact absurd (by rw [← h.1]; simp) hx
+    | cons z zs =>
+      simp only [List.cons_append, List.cons.injEq] at h
+      have := ih zs b b' (fun m => hx (List.mem_cons_of_mem _ m)) (fun m => h' (List.mem_cons_of_mem _ m)) h.2
+      exact ⟨by rw [h.1, this.1], this.2⟩
+
+theorem laneKey_inj_of_no_slash (uri uri' name name' : Bytes) (h : 47 ∉ name) (h' : 47 ∉ name')
+    (e : Rocks.laneKey uri name = Rocks.laneKey uri' name') : uri = uri' ∧ name = name' := by
+  simp only [Rocks.laneKey] at e
+  have e1 := List.append_cancel_left e
+  simp only [List.cons.injEq, true_and] at e1
+  -- split at the last `/`: reverse both sides
+  have e2 := congrArg List.reverse e1
+  simp only [List.reverse_append, List.reverse_cons, List.append_assoc, List.singleton_append] at e2
+  have := split_unique 47 name.reverse name'.reverse uri.reverse uri'.reverse (by simpa using h) (by simpa using h') e2
+  exact ⟨List.reverse_inj.mp this.2, List.reverse_inj.mp this.1⟩
 
 end SwimVerif.Store
